@@ -21,6 +21,9 @@ def cases(tier, seed):
             yield dict(name=n, op="int-random-state-vs-global-seed")
     for rs in (None, 0, 1, 7):
         yield dict(name="PiecewiseClassifier-missing-class", op="reproducible", random_state=rs)
+    # an integer seed is an integer seed whatever its type (numpy.random.randint / numpy.arange yield numpy integers)
+    for rs in ("numpy.int64:7", "numpy.int32:0"):
+        yield dict(name="PiecewiseClassifier-missing-class", op="reproducible", random_state=rs)
     yield dict(name="PermutationReciprocalTransformer", op="refit-closest")
 
 
@@ -40,6 +43,9 @@ def piecewise_missing_class(random_state, gseed):
 def check(c):
     d = EST.datasets(1)
     if c["op"] == "reproducible":
+        if isinstance(c["random_state"], str):
+            tname, v_ = c["random_state"].split(":")
+            c = dict(c, random_state=getattr(numpy, tname.split(".")[1])(int(v_)))
         a = piecewise_missing_class(c["random_state"], 3)
         b = piecewise_missing_class(c["random_state"], 3)
         if not numpy.array_equal(a, b):
